@@ -48,8 +48,10 @@ func zzH15_roundtrip_string() {
 }
 
 // zzH15_roundtrip_rune: one arbitrary Unicode scalar value (all four encoded
-// sizes, so \u and \U escapes and astral printable runes are reached) with
-// an optional neighbouring symbolic byte before or after, in both modes.
+// sizes, so \u and \U escapes and astral printable runes are reached), in
+// string mode (thorough: both modes). (Neighbouring-byte contexts exist in the
+// harness but are switched off in both tiers: ~25x the paths; adjacent
+// interactions are covered by the <=3-byte harnesses.)
 //
 //verif:unwind 200
 func zzH15_roundtrip_rune() {
@@ -57,7 +59,7 @@ func zzH15_roundtrip_rune() {
 	zzAssume(zzAnd(r >= 0, r <= 0x10FFFF))
 	zzAssume(zzNot(zzAnd(r >= 0xD800, r <= 0xDFFF)))
 	s := zzEncodeRune(r)
-	switch zzChoice("ctx", zzParam("contexts", 1, 3)) {
+	switch zzChoice("ctx", zzParam("contexts", 1, 1)) {
 	case 1:
 		s = s + zzString("post", 1)
 	case 2:
@@ -138,7 +140,7 @@ func zzCheckUnquote(body string, tag string, npfx, nquot int) {
 func zzH15_unquote_free() {
 	maxk := zzParam("maxbody", 2, 3)
 	k := zzChoice("k", maxk+1)
-	zzCheckUnquote(zzString("body", k), "free", 4, zzParam("quotings", 2, 4))
+	zzCheckUnquote(zzString("body", k), "free", 4, zzParam("quotings", 2, 3))
 	zzReach("end")
 }
 
@@ -148,7 +150,7 @@ func zzH15_unquote_free() {
 // arbitrary byte, so non-hex characters must be rejected; the other digits
 // range over [0-9a-f] (thorough: also [A-F]); some digits of \U and all octal
 // digits range over [0-9] only, to bound the forks inside strconv.ParseUint.
-// Thorough: one optional arbitrary trailing byte and all quotings.
+// Thorough: one optional arbitrary trailing byte. Quotation fixed to "...".
 //
 //verif:unwind 400
 func zzH15_unquote_hex() {
@@ -181,7 +183,7 @@ func zzH15_unquote_hex() {
 	if zzChoice("tail", zzParam("tails", 1, 2)) == 1 {
 		body += zzString("t", 1)
 	}
-	zzCheckUnquote(body, "hex", 2, zzParam("quotings", 1, 4))
+	zzCheckUnquote(body, "hex", 2, 1)
 	zzReach("end")
 }
 
